@@ -35,7 +35,7 @@ func (e *Engine) externalModel(st *State, full string, fn *types.Func, args []Va
 		case "PutUint16", "PutUint32", "PutUint64":
 			n := map[string]int{"PutUint16": 2, "PutUint32": 4, "PutUint64": 8}[name]
 			sv := args[1].(SliceV)
-			v := e.asInt(args[2], call)
+			v := e.nameQ("pv", e.asInt(args[2], call))
 			e.oblige(st, "bounds", e.slug(call), Ge(sv.ln, I(int64(n))), call.Pos(), nil)
 			arr := Sel(st.Mem, sv.blk)
 			// the n bytes are introduced as the unique digits of v in base 256 (exists for 0 <= v < 256^n):
@@ -53,7 +53,9 @@ func (e *Engine) externalModel(st *State, full string, fn *types.Func, args []Va
 				if cv, ok := constVal(v); ok {
 					b = IBig(new(bigInt).Mod(new(bigInt).Rsh(cv, shift), pow2(8)))
 				} else {
-					b = e.fresh("byte", SInt)
+					// dig(v, k): the k-th base-256 digit of v, a function of v (equal values give equal bytes)
+					e.declareUF("dig", "(declare-fun dig (Int Int) Int)")
+					b = app(SInt, "dig", v, I(int64(shift/8)))
 					facts = append(facts, And(Le(I(0), b), Le(b, I(255))))
 				}
 				sum = Add(sum, Mul(b, IBig(pow2(shift))))
@@ -63,7 +65,7 @@ func (e *Engine) externalModel(st *State, full string, fn *types.Func, args []Va
 				facts = append(facts, Eq(sum, v))
 				e.assume(st, And(facts...), "base-256 digits of a fixed-width unsigned value")
 			}
-			st.Mem = e.name("Mem", Sto(st.Mem, sv.blk, arr))
+			e.memWrite(st, sv.blk, arr, "the destination of "+name)
 			return TupleV{}, true
 		}
 	case full == "fmt.Errorf" || full == "errors.New":
